@@ -2,7 +2,7 @@
 from ..core.model import Program, mutated_source
 from ..core.report import CheckContext
 from ..core.resolve import Resolver
-from ..rules import dispatch
+from ..rules import dispatch, effect
 from .common import run_control
 
 
@@ -10,6 +10,9 @@ def analyse(ctx: CheckContext, p: Program):
     r = Resolver(p)
     dispatch.check_dispatch(ctx, p, r)
     dispatch.check_lmtd_guard(ctx, p, r)
+    # the relations are functions of their arguments only: nothing in the module writes module-level state (memo tables keyed too coarsely etc.)
+    fs = [f for f in p.all_funcs if f.module.name == "OpenPinch.utils.heat_exchanger"]
+    effect.check_module_state(ctx, p, r, fs, rule="PURE")
 
 
 def run(ctx: CheckContext):
@@ -27,5 +30,7 @@ def run(ctx: CheckContext):
                 "elif Arrangement == HX.CrFMM.value:\n            eff = (", "elif Arrangement == HX.CrFMM:\n            eff = (", expect_rule="DISPATCH")
     run_control(ctx, "C20/normalisation-removed-in-HX_NTU", analyse, p.root, hx,
                 '    Arrangement = getattr(Arrangement, "value", Arrangement)\n\n    if Passes > 1:', "    if Passes > 1:", expect_rule="DISPATCH")
+    run_control(ctx, "C20/module-memo-table", analyse, p.root, hx,
+                "def Coth(R):", "_COTH_CACHE = {}\n\n\ndef _remember(R, v):\n    _COTH_CACHE[round(R, 3)] = v\n    return v\n\n\ndef Coth(R):", "PURE")
     run_control(ctx, "C20/guard-weakened", analyse, p.root, hx,
                 "if delta_T1.round(6).min() <= 0 or delta_T2.round(6).min() <= 0:", "if delta_T1.round(6).min() <= 0:", expect_rule="LMTD-GUARD")
